@@ -179,12 +179,18 @@ def check_acct(eng, run):
     counter = next((a_.target.id for a_ in aug if isinstance(a_.target, ast.Name) and a_.target.id in test_names), None)
     ok = False
     msg = "the sent-counter is not advanced by the count returned by send() of the same iteration"
+    from sa.norm import nodes_inl, through_identity_helper
     for a in aug:
-        if isinstance(a.target, ast.Name) and a.target.id == counter and isinstance(a.value, ast.Name) and _bound_from(fn, a.value.id, {"send"}):
+        v = through_identity_helper(fn, a.value)  # `total += _check(sent)`: a validating pass-through
+        if isinstance(a.target, ast.Name) and a.target.id == counter and isinstance(v, ast.Name) and _bound_from(fn, v.id, {"send"}):
             ok = True
     slices = [n for n in ast.walk(loop) if isinstance(n, ast.Subscript) and isinstance(n.slice, ast.Slice)]
     ok_slice = any(isinstance(s.slice.lower, ast.Name) and s.slice.lower.id == counter and s.slice.upper is None for s in slices)
-    neg = any(isinstance(n, ast.If) and isinstance(n.test, ast.Compare) and isinstance(n.test.ops[0], ast.Lt) and any(isinstance(r, ast.Raise) for r in n.body) for n in ast.walk(loop))
+    def rejects_negative(n):
+        return isinstance(n, ast.If) and isinstance(n.test, ast.Compare) and isinstance(n.test.ops[0], ast.Lt) and any(isinstance(r, ast.Raise) for r in n.body)
+
+    helpers = {o for c in ast.walk(loop) if isinstance(c, ast.Call) for n, o in nodes_inl(fn) if o is not fn and (dotted(c.func) or "").split(".")[-1] == o.name}
+    neg = any(rejects_negative(n) for n in ast.walk(loop)) or any(rejects_negative(n) for h in helpers for n in own_nodes(h.node))
     if not ok:
         run.finding("C04.acct", fn, aug[0] if aug else loop, msg + ": bytes would be skipped or sent twice")
     if not ok_slice:
@@ -406,13 +412,14 @@ def run(eng, run):
     from sa.anchors import verify as _verify_anchor_names
     _verify_anchor_names(eng, run)
     run.not_decided += NOT_DECIDED
-    check_iterable_consumed(eng, run)
+    run.attempt(check_iterable_consumed, eng, run)
     run.assumptions += ["a non-blocking send returns a positive count for a non-empty offer (EAGAIN is raised otherwise and handled by the retry wrapper) and 0 for an all-empty offer",
                         "SC_IOV_MAX >= 3 (the abstract list bound)"]
-    check_prog(eng, run)
-    check_acct(eng, run)
-    check_once(eng, run)
-    check_wait(eng, run)
+    run.attempt(check_prog, eng, run)
+    run.attempt(check_acct, eng, run)
+    run.attempt(check_once, eng, run)
+    run.attempt(check_wait, eng, run)
+    run.end_of_rules()
 
 
 # ---------------------------------------------------------------------------------------------- self-test corpus
